@@ -232,7 +232,9 @@ def r15_4(chk, P):
             if isinstance(k, str) and k.endswith('set_in_stone') and isinstance(x, V):
                 return x.const() == 0
         return None
-    A = absint.Analyzer(P, F, partition=part)
+    hk = absint.Hooks()
+    hk.post_call = k2.make_post_call(P)       # a validation moved into a file-local helper: its return range (K4) is the call's
+    A = absint.Analyzer(P, F, hooks=hk, partition=part)
     A.observers.append(obs)
     A.run()
     chk.require(len({s[0] for s in sites}) >= 10, 'vorbis_encode_ctl: setters not found')
